@@ -31,6 +31,9 @@ eql(A, B) :- A = B.
 """
 
 
+MARGIN = 12      # frames of slack between "the plain search completes" and "evaluate_bounded must complete"
+
+
 def peano(n):
     t = ('a', 'z')
     for _ in range(n):
@@ -65,7 +68,7 @@ class C17(Prop):
             'plus random generic programs, x recursion limits from 25 to 465 frames above the caller x projection '
             'functions that return the answer, raise ValueError / a RuntimeError subclass at answer k, run a nested evaluate_bounded on the same engine with another limit, use the recursive get_value of the engine (which may itself overflow at a deep answer), or recurse deeply '
             'themselves x the interpreter\'s own limit before the call (generous, or LOWER than the requested limit). Oracles: no RecursionError (or other exception than the projection\'s own non-RuntimeError) '
-            'escapes; if a plain loop with the identical frame shape completes under the same limit, the result equals '
+            'escapes; if a plain loop over the same generator completes under a limit 12 frames LOWER (the frames evaluate_bounded uses itself are not specified), the result equals '
             'that list and R\'s answers; otherwise it agrees with R\'s answer prefix; the result under limit L and the '
             'result under L + 600 are prefix-comparable (both are prefixes of the one true sequence); afterwards '
             'sys.getrecursionlimit() is what it was and every engine variable ever created is unbound - on the normal, '
@@ -414,18 +417,19 @@ class C17(Prop):
             if st == 'done' and len(res) > len(ref):
                 return FAIL('result-has-extra-answers', dict(detail, result=[str(x)[:200] for x in res[:6]]))
             if kind in ('value', 'nested', 'engine-value'):
-                p = self.run_once(code, q, delta, kind, k, case['proj_depth'], 'plain', dyn, 'high', pyfunc, extra_scripts)
+                # "the search stays within the depth limit" is decided by a plain loop over the same generator under a
+                # limit that is MARGIN frames lower (how many frames evaluate_bounded itself uses is not specified): if
+                # even that completes, the bounded call must return every answer
+                p = self.run_once(code, q, max(20, delta - MARGIN), kind, k, case['proj_depth'], 'plain', dyn, 'high', pyfunc, extra_scripts)
                 if p['completed'] is True:
                     if res != p['result']:
-                        return FAIL('differs-from-plain-loop-under-the-same-limit', dict(detail, result=len(res), plain=len(p['result'])))
+                        return FAIL('search-fits-within-the-limit-but-answers-differ-from-plain-loop', dict(detail, result=len(res), plain=len(p['result']), margin_frames=MARGIN))
                     if st == 'done' and res != ref:
                         return FAIL('complete-search-but-answers-missing', dict(detail, result=[str(x)[:200] for x in res[:6]]))
                     classes.append('search-completed-within-limit')
                 elif p['completed'] is False:
                     struck = True
                     classes.append('limit-struck')
-                    if p['result'] != res:
-                        return FAIL('differs-from-plain-loop-under-the-same-limit', dict(detail, result=len(res), plain=len(p['result'])))
                 # metamorphic: a larger limit gives a prefix-comparable result
                 b = self.run_once(code, q, delta + 600, kind, k, case['proj_depth'], 'bounded', dyn, 'high', pyfunc, extra_scripts) if (struck or st != 'done') else {'result': None}
                 if b['result'] is not None:
